@@ -634,6 +634,58 @@ def scen_kill_serving(ctx, lab, model):
     return {"scenario": "kill_serving", "corr": res_corr, "left": left, "oracle": bad}
 
 
+def scen_pathlen(ctx, lab, model, n):
+    """A socket pathname of exactly n bytes (around sizeof (sun_path)): either the start is refused and nothing is left behind, or the
+    daemon serves ON THE CONFIGURED NAME, survives SIGKILL + fresh start without --force, and a clean stop removes what it made.
+    (The name bound must be the name locked and unlinked: a silently truncated sun_path breaks both clauses of the statement.)"""
+    import stat as _stat
+    lab.n += 1
+    base = os.path.join(ctx.work, "pl%d_" % lab.n)
+    pad = n - len(base) - len("/sock")
+    if pad < 1:
+        return {"scenario": "pathlen", "n": n, "corr": [], "oracle": None, "skipped": "work directory name too long for %d" % n}
+    d = base + "x" * pad
+    os.makedirs(d, mode=0o755)
+    with open(os.path.join(d, "key"), "wb") as f:
+        f.write(os.urandom(128))
+    os.chmod(os.path.join(d, "key"), 0o600)
+    assert len(lab.p(d, "sock")) == n
+
+    def stray():
+        out = []
+        for x in os.listdir(d):
+            try:
+                if _stat.S_ISSOCK(os.lstat(os.path.join(d, x)).st_mode) and x != "sock":
+                    out.append(x)
+            except OSError:
+                pass
+        return out
+    bad = None
+    a = Daemon(lab, d, "A")
+    if not a.wait_serving():
+        a.wait_exit(5); a.destroy()
+        if stray() or lab.names(d)["sock"]:
+            bad = "start with a %d-byte socket name was refused but left a socket inode behind (%s)" % (n, stray() or "sock")
+        ctx.distinct("pathlen-%d-refused" % n)
+        return {"scenario": "pathlen", "n": n, "corr": [], "oracle": bad, "outcome": "refused"}
+    can = lab.ask(d)
+    if not can[0]:
+        bad = "daemon started with a %d-byte socket name but does not serve on it (%s; socket inodes in the directory: %s)" % (n, can[1], stray() or "none")
+    os.kill(a.mpid(), signal.SIGKILL)
+    a.wait_exit(); a.destroy()
+    b = Daemon(lab, d, "B")
+    ok = b.wait_serving()
+    can = lab.ask(d) if ok else (False, "not serving")
+    if not bad and not (ok and can[0]):
+        bad = "%d-byte socket name: after SIGKILL a fresh start without --force did not serve: %s %s" % (n, can[1], b.log()[-300:])
+    b.stop(); b.destroy()
+    left = lab.names(d)
+    if not bad and (left["sock"] or left["lock"] or left["pid"] or stray()):
+        bad = "%d-byte socket name: after a clean stop these remain: %s %s" % (n, [k for k in ("sock", "lock", "pid") if left[k]], stray())
+    ctx.distinct("pathlen-%d-served" % n)
+    return {"scenario": "pathlen", "n": n, "corr": [], "oracle": bad, "outcome": "served"}
+
+
 def scen_f5(ctx, lab, model, c_first=False):
     """(5): A serves; B is held between open(lockfile) and F_SETLK; A is stopped cleanly; then either B continues and C
     starts afterwards, or (c_first) C starts and serves while B is still held and B continues afterwards."""
@@ -867,6 +919,10 @@ def run(ctx):
         ctx.log("concurrent starts done")
         r = scen_kill_serving(ctx, lab, model)
         judge(ctx, r, lambda: scen_kill_serving(ctx, lab, model), "restart after SIGKILL")
+        for n_ in (106, 107, 108, 109):
+            r = scen_pathlen(ctx, lab, model, n_)
+            ctx.dist("pathlen_%s" % r.get("outcome", "skipped"))
+            judge(ctx, r, lambda n_=n_: scen_pathlen(ctx, lab, model, n_), "socket pathname at the sun_path limit")
         pts, err = crash_points(ctx, lab, model)
         ctx.obligation("build", "crash points enumerated from a baseline trace (%d)" % len(pts), len(pts) >= 12, err or str(pts)[:300])
         ctx.cov["crash_points_total"] = len(pts)
@@ -927,6 +983,8 @@ def replay(ctx):
             f = lambda: scen_crash(ctx, lab, model, rep["pt"], rep.get("pt2"))
         elif sc == "kill_serving":
             f = lambda: scen_kill_serving(ctx, lab, model)
+        elif rep.get("scenario") == "pathlen":
+            f = lambda: scen_pathlen(ctx, lab, model, int(rep.get("n", 108)))
         elif sc == "race":
             import random
             f = lambda: scen_race(ctx, lab, model, rep.get("k", 3), random.Random(rep.get("seed", 1)))
